@@ -63,6 +63,21 @@ def run(ctx):
         ctx.guard(t6, ctx, cfg, fs)
         ctx.guard(t7, ctx, cfg, fs)
         ctx.guard(t8, ctx, cfg, fs, bodies)
+        ctx.guard(t5_offsets, ctx, cfg, fs)
+
+def t5_offsets(ctx, cfg, fs):
+    """the quoting wrapper and the renderers cut strings only at byte offsets (char_indices/len/find), never at a
+    character count: a wrong cut splits a multi-byte character or shifts the escaping of a quote (C04 rules applied
+    to complete_shell)"""
+    import c04
+    before = len(ctx.obs)
+    try:
+        c04.str_index(ctx, cfg, fs); c04.str_cut(ctx, cfg, fs)
+    finally:
+        keep = [o for o in ctx.obs[before:] if re.match(r'(Shell::fmt|<complete_shell|complete_shell::|render_)', o.key)]
+        for o in keep: o.rule = 'T5.escaper'
+        ctx.obs = ctx.obs[:before] + keep
+    ctx.ob('T5.escaper', 'complete_shell:string-cuts', True, 'complete_shell cuts strings at %d site(s), all at byte offsets' % len(keep), cfg=cfg, nontrivial=False)
 
 LINE_ORIENTED = ('render_fish', 'render_simple')
 
